@@ -616,6 +616,42 @@ func chanCapacityIn(w *World, r *Report, fn *ssa.Function) {
 		if loop {
 			return // sender loops: a stream channel, not a completion report
 		}
+		// a goroutine that runs a listener until shutdown and then reports why it stopped exists once per endpoint
+		// for the life of the process: it is not the completion report of a connection
+		serverLifetime := true
+		for _, sd := range senders {
+			callees := []*ssa.Function{}
+			if sc := sd.g.Call.StaticCallee(); sc != nil {
+				callees = append(callees, sc)
+			} else {
+				callees = append(callees, funcValues(sd.g.Call.Value)...)
+			}
+			for _, callee := range callees {
+				found := false
+				allInstrs(callee, func(in2 ssa.Instruction) {
+					snd, ok := in2.(*ssa.Send)
+					if !ok {
+						return
+					}
+					for _, root := range provenance(snd.X, provOpts{}) {
+						if c, ok := root.(*ssa.Call); ok {
+							if f := sCallee(c); f != nil && !inModuleFunc(f) {
+								switch f.Name() {
+								case "ListenAndServe", "ListenAndServeTLS", "Serve", "ServeTLS", "ActivateAndServe":
+									found = true
+								}
+							}
+						}
+					}
+				})
+				if !found {
+					serverLifetime = false
+				}
+			}
+		}
+		if serverLifetime && len(senders) > 0 {
+			return
+		}
 		if !capConst {
 			r.Undecided("R14.1", key, pos, "channel capacity is not a constant")
 			return
